@@ -53,7 +53,7 @@ def expected(rules, cc_rules, cmp, cc_ignore, golden, golden_cc, text):
 
 def run_case(res, wd, case):
     text, rules, cc_rules, cmp_opts, cc_ignore, opts, delay, inj, desc = case
-    cfg = {'monitors': ['check'], 'check_text': True}
+    cfg = {'monitors': ['check', 'exec'], 'check_text': True}
     if inj:
         cfg['delay'] = inj
     run = realrun.run_ddsmt(wd, text, rules, opts=opts, cc_spec=cc_rules,
@@ -65,6 +65,13 @@ def run_case(res, wd, case):
         return
     if run.rc != 0 or run.uncaught_traceback:
         res.count('real_runs_failed')
+        return
+    if any(e['ev'] == 'exec' and e.get('timed_out')
+           and (e.get('timeout') or 0) >= 4.0 for e in run.events):
+        # a run of the command exceeded a limit that was the right one
+        # (>= 4 s for millisecond commands, 1.5 x (1.7 s + 1 s) for the slow
+        # cross check): the machine is overloaded, no verdict
+        res.count('real_runs_with_a_timeout_skipped')
         return
     cmp = workload.parse_comparison(cmp_opts)
     _, ex, out, err, _ = realrun.eval_spec(rules, text)
@@ -102,11 +109,35 @@ def run_case(res, wd, case):
     res.cmax('max_checking_processes_in_a_run', len(pids))
 
 
+def slow_cross_check_case():
+    """A cross-check command that needs 1.7 s beside a fast main command,
+    no explicit limits: candidates that behave like both golden runs are
+    accepted (the cross check is compared with - and timed by - its *own*
+    golden run)."""
+    text = '(declare-const a Int)\n(assert (> a 1))\n(check-sat)\n'
+    rules = realrun.simple_spec('has:assert')
+    cc_rules = [realrun.rule('all', 3, 'cc\n', 'cc err\n',
+                             delay_us=1700000)]
+    opts = ['--strategy', 'ddmin', '-j', '2', '--disable-all',
+            '--erase-node']
+    desc = {'input': text, 'rules': rules, 'cc_rules': cc_rules,
+            'opts': opts, 'delay': None, 'inject': None,
+            'slow_cross_check': True}
+    return text, rules, cc_rules, [], False, opts, None, None, desc
+
+
 def shard(args):
     res = common.ShardResult()
     r = common.rng('c09real', args['shard'])
     base = common.scratch_dir('c09r')
     try:
+        if args['shard'] == 0:
+            wd = os.path.join(base, 'slowcc')
+            try:
+                run_case(res, wd, slow_cross_check_case())
+                res.count('slow_cross_check_cases')
+            finally:
+                shutil.rmtree(wd, ignore_errors=True)
         for i in range(args['n']):
             case = make_case(r)
             wd = os.path.join(base, f'r{i}')
